@@ -39,7 +39,7 @@ import (
 )
 
 const preamble = `From Coq Require Import List NArith ZArith String.
-From Fabio Require Import Lib.Outcome Lib.Bytes Lib.Pack Model.UrlPathC07 Model.HttpFwd Check.C07.
+From Fabio Require Import Lib.Outcome Lib.Bytes Lib.Pack Model.UrlPathC07 Model.HttpFwd Model.NoRoutePage Check.C07.
 Import ListNotations.
 Local Open Scope N_scope.
 `
@@ -1431,6 +1431,13 @@ func main() {
 		run.Add("forward-loopback-https-"+sel.name, vh.App("CFwd", "true", coqOpts(&o2), coqReq(q, host, parsed), coqUp(res.up), coqResp(rs.Status, flattenList(rs.Hdrs), rs.Body), coqResp(res.code, res.clientHdrs, res.clientBody)), sm)
 	}
 	run.Notes["loopback_retries"] = lp.retries + lt.retries
+
+	// ---- 9. the no-route page configured at run time: real watchNoRouteHTML + newHTTPProxy (package main) ----
+	repo := os.Getenv("VERIF_REPO")
+	if repo == "" {
+		repo = "/repo"
+	}
+	genNoRouteHistories(run, repo)
 	os.Remove(filepath.Join(run.Out, "c07-upstream-root.pem"))
 	run.Finish(preamble, run.Scale(130, 400))
 }
